@@ -1,25 +1,53 @@
 """C11 - compilation gives schema constructs their RFC 7950 meaning"""
-from props import comps_iff
+from props import comps_iff, comps_restrict, comps_flatten
 
 PID = "C11"
 LEVEL = "proof"
 
 
 def components():
-    return [comps_iff.IffCompile(), comps_iff.IffValue()]
+    return [comps_iff.IffCompile(), comps_iff.IffValue(), comps_restrict.RangeDirect(), comps_restrict.RangeChain()]
 
 
 def oracles_():
-    return [comps_iff.IffDenote()]
+    return [comps_iff.IffDenote(), comps_restrict.RestrictRfc(), comps_flatten.FlattenEquiv(), comps_flatten.LoadOrder()]
 
 
 MANIFEST = {
-    "text": "Coq theorem C11_iffeature_correct: every string of the RFC 7950 if-feature grammar (any parenthesisation and "
-            "white space) with parse tree e whose features resolve compiles, and the compiled prefix code evaluates under every "
-            "feature assignment to the denotation of e (and/or/not); C11_iffeature_eval_prefix_correct for the evaluator alone. "
-            "Tie: extracted model vs lys_compile_iffeature/lysc_iffeature_value (T2, exhaustive ASTs up to 5-7 nodes x all "
-            "renderings of a family x all 8 assignments).",
-    "note": "Only the if-feature part of the property is modelled. Typedef/grouping/augment/deviation expansion and range "
-            "narrowing are not modelled in Coq yet (planned: Restrict, Compile).",
-    "technique": "Coq proof over hand-written model + differential correspondence (extracted OCaml vs C)",
+    "text": "PROVED (Coq) are the two kernels of the property. (1) if-feature: C11_iffeature_correct - every string of the "
+            "RFC 7950 if-feature grammar (any parenthesisation and white space) with parse tree e whose features resolve "
+            "compiles, and the compiled prefix code evaluates under every feature assignment to the denotation of e (and/or/"
+            "not); C11_iffeature_eval_prefix_correct for the evaluator alone. (2) range / length restrictions along typedef "
+            "chains (Properties_C11_restrict.v): C11_range_compile_iff - on every text of the range-arg grammar the compiler "
+            "accepts exactly the legal restrictions (keywords resolved against the base, numbers within the built-in type, "
+            "parts ascending and disjoint, every part inside a part of the base) and returns the parts written; "
+            "C11_range_chain_intersection - the effective restriction of the last typedef of a chain accepts exactly the "
+            "values every restriction of the chain accepts; C11_range_rejects_widening; C11_range_validate_agrees "
+            "(lyplg_type_validate_range decides membership); C11_range_total / C11_range_parts_in_type_partial for ARBITRARY "
+            "texts. The model follows the code and carries its defects, each with a refutation theorem and a replayed "
+            "witness: a range with juxtaposed numbers (1 50) widens its base, 1|| makes the base check read beyond the parts "
+            "array, 1..9..3 / 127 | max / decimal64 - / +5 are accepted, 3..7 under 1..5 | 6..9 / 0..min / 1.50 are rejected. "
+            "Tie: extracted models vs lys_compile_iffeature / lysc_iffeature_value and vs lys_compile_type_range called "
+            "directly and through lys_parse_mem on generated typedef chains (depth 1-4, int8..uint64, decimal64 fd 1/2/9/18, "
+            "string / binary length) with lyd_value_validate probes at every boundary +-1 (T2). "
+            "SEARCH ONLY (testing, no proof): the equivalence of structured and flattened module sets and load-order "
+            "independence - oracle flatten-equiv (generated typedef chains with defaults / units, groupings with nested uses, "
+            "refine and uses-augment, own and foreign augments incl. choice cases and uses'd subtrees, a submodule, "
+            "deviations, if-feature expressions, when; hand-flattened twin written by a Python flattener from RFC 7950; all 8 "
+            "feature assignments: equal LYS_OUT_YANG_COMPILED prints, schema-node sets equal to the Python if-feature "
+            "denotation, equal verdicts on valid and single-mutation instance documents) and oracle load-order (all load "
+            "orders, implemented-later, explicit compile, parse from text); oracle restrict-rfc compares the library with an "
+            "independent Python reading of RFC 7950 9.2.4.",
+    "note": "Modelled in Coq: lys_compile_iffeature, lysc_iffeature_value; lys_compile_type_range, range_part_minmax, "
+            "range_part_check_value_syntax, range_part_check_ascendancy, the hand-down of the base restriction in "
+            "lys_compile_type, lyplg_type_validate_range (ly_parse_int / ly_parse_uint from slice types). NOT modelled in Coq: "
+            "the expansion of typedef / grouping / uses / refine / augment / submodule / deviation (lys_compile_node*, "
+            "schema_compile_amend.c), pattern restrictions, enum / bits restrictions, load order - these are covered by "
+            "search only (comps_flatten.py). In the compiled prints compared by flatten-equiv the when statements are removed "
+            "(the flattened twin re-roots the XPath; its meaning is compared on instance documents) and the order among "
+            "children added by the augments of nested uses follows libyang (RFC 7950 does not fix it). Findings listed in "
+            "known_findings.d/restrict.json and flatten.json (nested refine: inner wins; leaf-list min-elements with a typedef "
+            "default; NULL dereference in lys_compile_type on a chain of three typedefs).",
+    "technique": "Coq proof over hand-written models + differential correspondence (extracted OCaml vs C) for if-feature and "
+                 "restrictions; generated-module differential testing (structured vs hand-flattened, load orders) for the rest",
 }
